@@ -70,6 +70,15 @@ _graph_containers, _convenience, serde, traversal and passes/common pass, and bo
     Graph.remove(safe=True)'s safety analysis on the state AFTER the replacement, insert_after's checks and the pair
     simulation above, plus the Value.name/type/shape propagation that can itself raise - not small.
 
+ROUND 4 (seeded/C06-r4m1, C06-r4m3 escaped; both now caught with concrete replays):
+  * gen_rejections shape io-returning: a value that belonged to the list (once or twice), left it (pop/remove) and was
+    adopted by the other graph is re-offered at position >= 1 of extend / slice assignment after acceptable values; the
+    random generator re-offers such values too (the list's ref counter still has a zero-count key for them)
+    -> r4m1 (extend skips re-validation of values `in self._ref_counter`) caught at IOExtend by oracle and correspondence;
+  * gen_multi_rau: unequal-length values / replacements (shorter, longer, a single value against several replacements,
+    a single replacement) whose common prefix has consumers / is a graph output
+    -> r4m3 (length check replaced by zip(strict=True) inside the replacing loop) caught at X_ConvReplaceAllUses.
+
 READING.  "every observable property of every reachable IR object" = the accessors of C01's observe_at list for every
 object the history ever created (a superset of the reachable ones), plus object counts.  Hidden state (ref counters,
 name-authority sets) is part of the model-side theorem only; a rejected call that corrupts only hidden state is still
